@@ -20,6 +20,7 @@
 (* claimed node executes (expressions are pure).                           *)
 (*   val claim : the node's table is the claimed constant wherever defined *)
 (*   deg claim : hi <= 2  =>  poly /\ total degree of the table <= hi      *)
+(*               (poly judged where the value is defined at all)           *)
 (* Operator semantics: Field.tla.  Locals declared without initialiser are *)
 (* 0, as in Circom.  Local arrays hold one value per element; an element  *)
 (* read or write needs an index that is constant over the signal          *)
@@ -100,10 +101,12 @@ ClaimVerdict(cl, en) ==
   IF cl.kind = "val" THEN
        (IF \E i \in Pts : v.t[i] # Err /\ (IF cl.isbool THEN (v.t[i] # 0) # (cl.v # 0) ELSE v.t[i] # cl.v % P)
         THEN "claimed constant does not hold in this execution" ELSE "")
-  ELSE IF cl.kind = "deg" /\ cl.hi <= 2 /\ Defined(v.t) THEN
-       (IF ~v.poly THEN "degree claimed for an expression that is not a polynomial expression of the signals"
-        ELSE IF K > 0 /\ ~DegLe(v.t, cl.hi) THEN "claimed degree bound exceeded"
-        ELSE IF K = 0 /\ cl.hi < 0 THEN "impossible" ELSE "")
+  ELSE IF cl.kind = "deg" /\ cl.hi <= 2 THEN
+       \* `not a polynomial expression` is judged wherever the expression has a value at all (in1 / in2 is undefined
+       \* for in2 = 0 and still no polynomial); the degree of the table only where it is defined everywhere
+       (IF (\E i \in Pts : v.t[i] # Err) /\ ~v.poly THEN "degree claimed for an expression that is not a polynomial expression of the signals"
+        ELSE IF Defined(v.t) /\ K > 0 /\ ~DegLe(v.t, cl.hi) THEN "claimed degree bound exceeded"
+        ELSE "")
   ELSE ""
 RECURSIVE FirstBad(_, _, _)
 FirstBad(cls, k, en) == IF k > Len(cls) THEN <<"", 0>>
